@@ -14,7 +14,7 @@ PROP = "C16"
 SPEC = ["Bng.Spec.C16Teardown", "Bng.Spec.C16TeardownMon", "Bng.Spec.C16Pppoe", "Bng.Spec.C16PppoeWhole", "Bng.Spec.C16PppoePark", "Bng.Spec.C16SubMgr", "Bng.Spec.C16Paths"] + ["Bng.Spec.C02Locks", "Bng.Spec.C16Locks", "Bng.Spec.C10Locks"]
 COMPS = [
     V.Component("pppoesrv", monitors=["residue", "conservation", "obs-roundtrip", "held-free", "pool-entry", "swept-active", "kept-idle"]),
-    V.Component("teardown", monitors=["double-stop", "double-cleanup", "residue", "missing-stop", "stop-unstarted", "stop-before-end", "not-terminated", "double-padt", "stop-without-start", "obs-roundtrip"]),
+    V.Component("teardown", monitors=["double-stop", "double-cleanup", "residue", "missing-stop", "stop-unstarted", "stop-before-end", "not-terminated", "double-padt", "stop-without-start", "ebpf-residue", "obs-roundtrip"]),
     V.Component("submgr", monitors=["double-release", "double-end", "residue", "index-mismatch"]),
 ]
 _extra = os.path.join(os.path.dirname(os.path.abspath(__file__)), "c16_dhcp.py")
@@ -39,6 +39,7 @@ ASSUME = [
     "subscriber.Manager: TerminateSession calls are interleaved at the manager's unlock points (tbegin/tresume), and AssignAddress calls are held inside the allocator call between their two critical sections (abegin/aresume) with terminations, creates and other assignments in the window; the allocator stub parks the call BEFORE it picks the address (the manager cannot tell where inside the allocator call time passes). An AssignAddress that hands a LIVE session a second address lies outside Bng.SubMgr.Valid: the recorded finding KF-submgr-reassign-leak",
     "PPPoE server: a PAP exchange can be held inside the RADIUS call (authpark/authresume: the RADIUS stub keeps the Access-Request unanswered) with idle sweeps and hours passing in the window - the only things that run then, the server has ONE receive goroutine; Bng.PppoePark, Spec.C16PppoePark.park_projects. The instants inside the window are the sweep's critical section as a whole (SessionManager.mu)",
     "concurrent terminations of pppoe.SessionTeardown: one call can be held after it claimed the session (tpark/tresume), other calls run in the window",
+    "pppoe.SessionTeardown with a failing eBPF-map callback (teardown `fault ebpf on|off|once`): the fast path is the harness's table of entries (one per session made, deleted by a callback call that returns nil); the callback is the only thing SessionTeardown knows of the kernel maps. A failed removal that is never retried is the recorded finding KF-pppoe-teardown-ebpf-noretry",
 ]
 ASSUME = ASSUME + [locks.ASSUME]
 
